@@ -500,11 +500,9 @@ func (m *Machine) ActSchedule(t *rapid.T) {
 	case admReject:
 		m.fail("C05", "schedule request for %s accepted with running=%d waiting=%d limit=%v strategy=%v delay=%v: expected rejection", p, len(running), len(waiting), limStr(def), def.QueueStrategy, def.StartDelay)
 	case admStart:
-		if !immediate {
-			m.fail("C05", "schedule request for %s with a free slot and no delay was not started at once (running=%d concurrency=%d)", p, len(running), def.Concurrency)
-		}
+		// "at once": by the time the runner is quiescent again the job has started (it is not on the wait list)
 		if rec.Bad == "" && !js.Running() && !js.Completed {
-			m.fail("C05", "job #%d should have started at once but is reported started=%v canceled=%v", rec.AcceptIdx, js.Start != nil, js.Canceled)
+			m.fail("C05", "schedule request for %s with a free slot and no delay was not started at once: reported started=%v canceled=%v (running=%d concurrency=%d)", p, js.Start != nil, js.Canceled, len(running), def.Concurrency)
 		}
 	case admQueue, admReplace:
 		if immediate {
